@@ -55,7 +55,12 @@ ProveStep(l0, e) ==
                   One(e.next = TChallengeValue(ref.tr, LState), l0, "C03", <<"prover transcript state differs from the specification's", n>>, sig("transcript")) \o
                   One(~e.write_err, l0, "C10", "Write failed on a bytes.Buffer", sig("write"))
         bad1 == One(e.inputs_unchanged, l0, "C13", "CreateMultiProof modified polynomials or indices", sig("inputs")) \o
-                One(~Has(e, "arrival_forced") \/ e.arrival_ok, l0, "DRIFT", "the forced arrival order of the grouping workers was not the observed one", sig("arrival"))
+                One(~Has(e, "arrival_forced") \/ e.arrival_ok, l0, "DRIFT", "the forced arrival order of the grouping workers was not the observed one", sig("arrival")) \o
+                \* the worker batches seen at the gate hook against the implementation-shaped model (ProofImpl!GGroup): W = NumCPU
+                \* workers, batch k = [(k-1)*ceil(n/W), k*ceil(n/W)).  A mismatch means the model is stale, not that the property fails.
+                One(~Has(e, "batches") \/ LET W == e.numcpu  b == (n + W - 1) \div W IN
+                                          Len(e.batches) = W /\ \A k \in 1 .. W : e.batches[k] = <<(k - 1) * b, IF k * b > n THEN n ELSE k * b>>,
+                    l0, "DRIFT", "worker batches differ from the implementation-shaped grouping model", sig("batches"))
         h    == IF Has(e, "panic") \/ e.err THEN NoHon
                 ELSE [set |-> TRUE, Cs |-> after, zs |-> e.zs, ys |-> [i \in 1 .. n |-> ops[i].f[ops[i].z + 1]],
                       proof |-> ProofOf(e.proof), label |-> e.label, next |-> e.next, n |-> n]
